@@ -353,13 +353,15 @@ func ruleC16(r *Report) {
 				r.Bad("C16.expiry", cons, p.Pos(fn.Pos()), fmt.Sprintf("%d stores to the claim", len(sts)))
 				return
 			}
-			c, ok := sts[0].Val.(*ssa.Call)
+			// (the instant may be computed by a local helper literal: stamp := func() int64 { return now.Unix() })
+			vfc, vv := fc.valueOfPureCall(sts[0].Val)
+			c, ok := vv.(*ssa.Call)
 			if !ok || c.Call.StaticCallee() == nil || c.Call.StaticCallee().String() != "(time.Time).Unix" {
 				r.Bad("C16.expiry", cons, p.InstrPos(sts[0]), "not the Unix time of an instant")
 				return
 			}
-			tt := fc.TimeTermOf(c.Call.Args[0])
-			src := valueSources(p, fn, tt.BaseV, 0, map[string]bool{})
+			tt := vfc.TimeTermOf(c.Call.Args[0])
+			src := valueSources(p, fn, outOfLiteral(tt.BaseV), 0, map[string]bool{})
 			okT := len(src) == 1 && src[0] == "call through saml.TimeNow" && tt.Const == 0 && !tt.Opaque
 			n := 0
 			for k, v := range tt.Coef {
@@ -400,7 +402,19 @@ func ruleC16(r *Report) {
 					var vals []string
 					okM := true
 					why := "a claim value does not come from the assertion's attribute statements or session index"
-					for _, lf := range rootLeaves(mu.Value, map[ssa.Value]bool{}) {
+					// (through a local helper that builds the extended slice: with := func(name, value string) []string {...})
+					type leafIn struct {
+						v  ssa.Value
+						fc *FuncCtx
+					}
+					var leaves []leafIn
+					for _, o := range rg.Origins(RV{V: mu.Value, C: act}) {
+						for _, lf := range rootLeaves(o.V, map[ssa.Value]bool{}) {
+							leaves = append(leaves, leafIn{lf, rg.Ctx(a, o.C)})
+						}
+					}
+					for _, l := range leaves {
+						lf, fm := l.v, l.fc
 						ap := fm.AP(lf)
 						vals = append(vals, ap)
 						if sl, isSl := lf.(*ssa.Slice); isSl && sl.Max == nil {
@@ -551,7 +565,8 @@ func checkSessionGates(r *Report, p *Prog, rule string) {
 	fc.ensureConds()
 	r.Fn(p.FnName(gs))
 	for _, ret := range fc.Returns() {
-		v := Resolve(ret.Results[0])
+		_, fres := fc.forwardedResults(ret)
+		v := Resolve(fres[0])
 		if isNilConst(v) {
 			continue
 		}
@@ -1177,9 +1192,10 @@ func checkLifetime(r *Report, p *Prog, rule string) {
 	}
 	v := lf["ExpiresAt"][0].Val
 	home := lf["ExpiresAt"][0].Parent()
-	if c, ok := v.(*ssa.Call); ok && c.Call.StaticCallee() != nil && strings.HasSuffix(c.Call.StaticCallee().String(), "NewNumericDate") {
-		tt := a.Ctx(home).TimeTermOf(c.Call.Args[0])
-		base := tt.BaseV
+	vfc, vv := a.Ctx(home).valueOfPureCall(v)
+	if c, ok := vv.(*ssa.Call); ok && c.Call.StaticCallee() != nil && strings.HasSuffix(c.Call.StaticCallee().String(), "NewNumericDate") {
+		tt := vfc.TimeTermOf(c.Call.Args[0])
+		base := outOfLiteral(tt.BaseV)
 		if home != enc {
 			// the claims are built by a constructor helper: the instant it is handed, in the encoder's terms
 			if cv := paramFieldInCaller(enc, home, base); cv != nil {
